@@ -627,6 +627,12 @@ def case_strategy(draw, driver=None):
                 if k == "qlevel":
                     c["oc"] = ["value", 0x33]
                 callers.append({"kind": "send", "cmds": [c], "t0": round(x["t"] + gap / 2, 5)})
+    if drv in ("luba", "sci") and draw(st.integers(0, 7)) == 0:
+        # a busy line and a listener that is slow to read its queue: 150 more observed frames in a row (queues are
+        # read out by the harness only at the end)
+        for j in range(150):
+            inject.append({"t": round(t + 0.02 * j, 4), "kind": "forward", "bits": 16, "value": PLAIN16[j % 4] if j % 5 else (0x0200 | (j & 0xFF))})
+        t += 0.02 * 150 + 0.1
     # subscribers: some from the start, some joining / leaving at odd instants
     nsub = draw(st.integers(0, 3))
     for k in range(nsub):
